@@ -28,6 +28,8 @@ use saito_core::core::msg::handshake::{HandshakeChallenge, HandshakeResponse};
 use saito_core::core::msg::message::Message;
 use saito_core::core::process::version::Version;
 use saito_core::core::util::crypto::{hash, verify_signature};
+#[allow(unused_imports)]
+use saito_core::core::defs::PrintForLog;
 use saito_core::core::util::serialize::Serialize;
 use verif_harness::common::{jstr, Args, Summary};
 use verif_harness::gal;
@@ -190,7 +192,32 @@ fn case_slip(ctx: &mut Ctx, s: &Slip) {
         Some(Err(_)) => fails.push("decoder rejected the encoder's output".into()),
         None => {}
     }
-    ctx.push("slip", format!("KSlip {} {}", g_slip(s), g_bytes(&bytes)), &bytes, format!("type={:?} idx={}", s.slip_type, s.slip_index), fails);
+    // UTXO-set key: get_utxoset_key / parse_slip_from_utxokey
+    let key = s.get_utxoset_key();
+    match guarded("Slip::parse_slip_from_utxokey", &mut fails, || Slip::parse_slip_from_utxokey(&key)) {
+        Some(Ok(d)) => {
+            if !slip_eq(&d, s) {
+                fails.push("slip parsed back from its utxoset key differs".into());
+            }
+            if d.get_utxoset_key() != key || d.utxoset_key != key || !d.is_utxoset_key_set {
+                fails.push("utxoset key differs after parse".into());
+            }
+        }
+        Some(Err(_)) => fails.push("parse_slip_from_utxokey rejected a generated key".into()),
+        None => {}
+    }
+    let sig_in = s.serialize_input_for_signature();
+    let sig_out = s.serialize_output_for_signature();
+    if sig_in != sig_out {
+        fails.push("input and output signature serialisations differ".into());
+    }
+    ctx.push(
+        "slip",
+        format!("KSlip {} {} {} {}", g_slip(s), g_bytes(&bytes), g_bytes(&key), g_bytes(&sig_in)),
+        &bytes,
+        format!("type={:?} idx={}", s.slip_type, s.slip_index),
+        fails,
+    );
 }
 
 fn case_hop(ctx: &mut Ctx, h: &Hop) {
@@ -223,8 +250,23 @@ fn case_tx(ctx: &mut Ctx, t: &Transaction, signer: Option<[u8; 33]>, kind: &str)
         fails.push(format!("get_serialized_size {} != encoded length {}", size, bytes.len()));
     }
     let mut before = t.clone();
+    // the hash must depend on wire fields only: junk in every cached field of the original
+    before.total_in = 0x1111_2222_3333_4444;
+    before.total_out = 0x2222_3333_4444_5555;
+    before.total_fees = 0x3333_4444_5555_6666;
+    before.total_work_for_me = 0x4444_5555_6666_7777;
+    before.cumulative_fees = 0x5555_6666_7777_8888;
+    before.hash_for_signature = Some([0xEE; 32]);
+    for sl in before.from.iter_mut().chain(before.to.iter_mut()) {
+        sl.utxoset_key = [0xDD; 59];
+        sl.is_utxoset_key_set = true;
+    }
+    let sig_bytes = before.serialize_for_signature();
     before.generate_hash_for_signature();
     let h0 = before.hash_for_signature.unwrap();
+    if t.transaction_type != TransactionType::SPV && h0 != hash(&sig_bytes) {
+        fails.push("hash_for_signature is not the hash of serialize_for_signature".into());
+    }
     let ok0 = signer.map(|pk| verify_signature(&h0, &t.signature, &pk));
     if ok0 == Some(false) && t.transaction_type != TransactionType::SPV {
         // (an SPV transaction's hash is a slice of its signature, it never verifies)
@@ -267,7 +309,7 @@ fn case_tx(ctx: &mut Ctx, t: &Transaction, signer: Option<[u8; 33]>, kind: &str)
     ctx.summary.count("tx_hops", &format!("{}", t.path.len()));
     ctx.push(
         "transaction",
-        format!("KTx {} {} {}", g_tx(t), g_bytes(&bytes), size),
+        format!("KTx {} {} {} {}", g_tx(t), g_bytes(&bytes), size, g_bytes(&sig_bytes)),
         &bytes,
         format!("{} type={:?} from={} to={} data={} hops={}", kind, t.transaction_type, t.from.len(), t.to.len(), t.data.len(), t.path.len()),
         fails,
@@ -319,8 +361,28 @@ fn case_block(ctx: &mut Ctx, rt: &tokio::runtime::Runtime, b: &Block, bt: BlockT
         fails.push(format!("predicted size {} != encoded length {}", predicted, bytes.len()));
     }
     let mut before = b.clone();
+    // pre_hash / hash must depend on wire fields only
+    before.total_work = 0x1212_3434_5656_7878;
+    before.in_longest_chain = true;
+    before.has_golden_ticket = true;
+    before.has_fee_transaction = true;
+    before.has_issuance_transaction = true;
+    before.golden_ticket_index = 77;
+    before.fee_transaction_index = 78;
+    before.issuance_transaction_index = 79;
+    before.total_rebroadcast_slips = 80;
+    before.total_rebroadcast_nolan = 81;
+    before.rebroadcast_hash = [0xAB; 32];
+    before.pre_hash = [0xCD; 32];
+    before.hash = [0xEF; 32];
+    before.safe_to_prune_transactions = true;
+    before.force_loaded = true;
+    let sig_bytes = before.serialize_for_signature();
     before.generate_pre_hash();
     before.generate_hash();
+    if before.pre_hash != hash(&sig_bytes) || before.hash != hash(&[before.previous_block_hash.as_slice(), before.pre_hash.as_slice()].concat()) {
+        fails.push("pre_hash / hash are not the documented hashes of the signed header bytes".into());
+    }
     let ok0 = signer.map(|pk| verify_signature(&before.pre_hash, &b.signature, &pk));
     if ok0 == Some(false) {
         fails.push("freshly signed block does not verify".into());
@@ -365,6 +427,7 @@ fn case_block(ctx: &mut Ctx, rt: &tokio::runtime::Runtime, b: &Block, bt: BlockT
         None => {}
     }
     // disk trip (Storage writes serialize_for_net(Full))
+    let mut file_case: Option<(String, Vec<u8>)> = None;
     if bt == BlockType::Full {
         let io = MemIO::default();
         let mut storage = Storage::new(Box::new(io.clone()));
@@ -374,8 +437,29 @@ fn case_block(ctx: &mut Ctx, rt: &tokio::runtime::Runtime, b: &Block, bt: BlockT
         let r = guarded("Storage::write/load_block", &mut fails, || {
             rt.block_on(async {
                 let name = storage.write_block_to_disk(&named).await;
-                storage.load_block_from_disk(&name).await
+                (name.clone(), storage.load_block_from_disk(&name).await)
             })
+        });
+        let r = r.map(|(name, res)| {
+            // the file is <block dir><timestamp>-<hex(hash)>.sai and holds serialize_for_net(Full)
+            let expected_name = format!("mem/blocks/{}-{}.sai", named.timestamp, hex::encode(named.hash));
+            if name != expected_name {
+                fails.push(format!("block file name {} is not {}", name, expected_name));
+            }
+            let short = name.strip_prefix("mem/blocks/").unwrap_or(&name).to_string();
+            file_case = Some((
+                format!("KFileName {} {} {}", named.timestamp, g_bytes(&named.hash), g_bytes(short.as_bytes())),
+                short.into_bytes(),
+            ));
+            match io.files.lock().unwrap().get(&name) {
+                Some(content) if *content == bytes => {}
+                Some(_) => fails.push("block file content is not serialize_for_net(Full)".into()),
+                None => fails.push("block file was not written under the returned name".into()),
+            }
+            if io.files.lock().unwrap().len() != 1 {
+                fails.push("write_block_to_disk wrote more than one file".into());
+            }
+            res
         });
         match r {
             Some(Ok(mut d)) => {
@@ -397,11 +481,14 @@ fn case_block(ctx: &mut Ctx, rt: &tokio::runtime::Runtime, b: &Block, bt: BlockT
     ctx.summary.count("block_txs", &format!("{}", b.transactions.len()));
     ctx.push(
         "block",
-        format!("KBlock {} {} {} {} {}", bt as u8, g_block(b), g_bytes(&bytes), dty, dntx),
+        format!("KBlock {} {} {} {} {} {}", bt as u8, g_block(b), g_bytes(&bytes), dty, dntx, g_bytes(&sig_bytes)),
         &bytes,
         format!("{} bt={:?} txs={} id={}", kind, bt, b.transactions.len(), b.id),
         fails,
     );
+    if let Some((kase, name_bytes)) = file_case {
+        ctx.push("block-file-name", kase, &name_bytes, format!("ts={}", b.timestamp), vec![]);
+    }
 }
 
 fn case_message(ctx: &mut Ctx, m: &Message, gallina: String) {
@@ -651,15 +738,341 @@ fn case_wallet(ctx: &mut Ctx, sk: [u8; 32], pk: [u8; 33]) {
     ctx.push("wallet", format!("KWallet {} {}", g_wallet(&sk, &pk), g_bytes(&bytes)), &bytes, String::new(), fails);
 }
 
-const HEADER: &str = "From Saito Require Import Base Bytes Codec.
+// ---------------------------------------------------------------- identity of every block form the node puts on the wire
+
+fn junk_free_header_eq(a: &Block, b: &Block, with_merkle: bool) -> bool {
+    block_header_nums(a) == block_header_nums(b)
+        && a.previous_block_hash == b.previous_block_hash
+        && a.creator == b.creator
+        && a.signature == b.signature
+        && (!with_merkle || a.merkle_root == b.merkle_root)
+}
+
+/// `orig` has been through generate() (hash, pre_hash, merkle root, transaction hashes set).
+/// Every form the node serves -- Full, Header, Pruned and the lite block of
+/// generate_lite_block(keys) sent as serialize_for_net(Full) -- must, after
+/// deserialize_from_net + generate(), carry the original's signed header fields and,
+/// when the merkle root is the original's, its pre_hash / hash / signature verdict.
+fn case_wire_identity(ctx: &mut Ctx, orig: &Block, keylists: &[(&str, Vec<[u8; 33]>)], kind: &str) {
+    let creator_ok = verify_signature(&orig.pre_hash, &orig.signature, &orig.creator);
+    let mut check = |fails: &mut Vec<String>, what: &str, bytes: &[u8], sent_merkle: &[u8; 32]| {
+        match catch_unwind(AssertUnwindSafe(|| Block::deserialize_from_net(bytes))) {
+            Ok(Ok(mut d)) => {
+                let g = catch_unwind(AssertUnwindSafe(|| d.generate()));
+                match g {
+                    Ok(Ok(())) => {}
+                    Ok(Err(_)) => fails.push(format!("{}: generate() fails on the received block", what)),
+                    Err(e) => fails.push(format!("{}: generate() panicked: {}", what, panic_message(e))),
+                }
+                if !junk_free_header_eq(&d, orig, false) {
+                    let (x, y) = (block_header_nums(&d), block_header_nums(orig));
+                    let idx: Vec<usize> = (0..x.len()).filter(|i| x[*i] != y[*i]).collect();
+                    fails.push(format!("{}: header fields of the received block differ from the original (numeric fields {:?})", what, idx));
+                }
+                if d.merkle_root != *sent_merkle {
+                    fails.push(format!("{}: merkle root changed on the wire", what));
+                }
+                if *sent_merkle == orig.merkle_root {
+                    if d.pre_hash != orig.pre_hash || d.hash != orig.hash {
+                        fails.push(format!("{}: the received block does not have the hash of the original", what));
+                    }
+                    if verify_signature(&d.pre_hash, &d.signature, &d.creator) != creator_ok {
+                        fails.push(format!("{}: creator signature verdict differs", what));
+                    }
+                }
+            }
+            Ok(Err(_)) => fails.push(format!("{}: decoder rejected the encoder's output", what)),
+            Err(e) => fails.push(format!("{}: decoder panicked: {}", what, panic_message(e))),
+        }
+    };
+    // Full / Header / Pruned
+    for bt in [BlockType::Full, BlockType::Header, BlockType::Pruned] {
+        let mut fails = vec![];
+        let bytes = orig.serialize_for_net(bt);
+        check(&mut fails, &format!("{:?}", bt), &bytes, &orig.merkle_root);
+        ctx.summary.count("wire_identity", &format!("{}:{:?}", kind, bt));
+        let sig_bytes = orig.serialize_for_signature();
+        let mut shown = orig.clone();
+        shown.block_type = BlockType::Full;
+        let after = Block::deserialize_from_net(&bytes).map(|d| (d.block_type as u8, d.transactions.len())).unwrap_or((99, 0));
+        ctx.push(
+            "block-wire-identity",
+            format!("KBlock {} {} {} {} {} {}", bt as u8, g_block(&shown), g_bytes(&bytes), after.0, after.1, g_bytes(&sig_bytes)),
+            &bytes,
+            format!("{} bt={:?} txs={} id={} atr_avg={} atr_total={}", kind, bt, orig.transactions.len(), orig.id, orig.avg_total_fees_atr, orig.total_fees_atr),
+            fails,
+        );
+    }
+    // lite blocks
+    for (kl_name, keys) in keylists {
+        let mut fails = vec![];
+        let lite = match catch_unwind(AssertUnwindSafe(|| orig.generate_lite_block(keys.clone()))) {
+            Ok(l) => l,
+            Err(e) => {
+                fails.push(format!("generate_lite_block panicked: {}", panic_message(e)));
+                Block::new()
+            }
+        };
+        if lite.hash != orig.hash {
+            fails.push("the lite block is announced under another hash than the full block".into());
+        }
+        if !junk_free_header_eq(&lite, orig, false) {
+            fails.push("lite block header differs from the full block in memory".into());
+        }
+        let bytes = lite.serialize_for_net(BlockType::Full);
+        check(&mut fails, &format!("lite[{}]", kl_name), &bytes, &lite.merkle_root);
+        let same_root = lite.merkle_root == orig.merkle_root;
+        ctx.summary.count("wire_identity", &format!("{}:lite:{}:{}", kind, kl_name, if same_root { "same-root" } else { "other-root(C18)" }));
+        let mut shown = orig.clone();
+        shown.block_type = BlockType::Full;
+        ctx.push(
+            "lite-block-wire-identity",
+            format!(
+                "KLite {} {} {} {}",
+                g_block(&shown),
+                gal::list(&lite.transactions.iter().map(g_tx).collect::<Vec<_>>()),
+                g_bytes(&lite.merkle_root),
+                g_bytes(&bytes)
+            ),
+            &bytes,
+            format!("{} keylist={} txs={} lite_txs={} same_merkle_root={}", kind, kl_name, orig.transactions.len(), lite.transactions.len(), same_root),
+            fails,
+        );
+    }
+}
+
+/// a hand-built block: all 27 numeric header fields distinct and non-zero, signed
+/// transactions (replacements 1), merkle root and hashes through generate(), creator signature
+fn built_block(rng: &mut Rng, ntx: usize) -> (Block, Vec<[u8; 33]>) {
+    let (cpk, csk) = keypair(rng);
+    let mut txs = vec![];
+    let mut keys = vec![];
+    for j in 0..ntx {
+        let (mut t, pk) = gen_signed_tx(rng, 1 + j % 2, 1 + j % 3, if j % 4 == 2 { 97 } else { 10 * j }, j % 2, if j % 4 == 2 { 2 } else { 0 });
+        t.txs_replacements = 1;
+        // amounts that generate() can add up
+        for (i, sl) in t.from.iter_mut().enumerate() {
+            sl.amount = 1_000_000 + (j * 10 + i) as u64;
+        }
+        for (i, sl) in t.to.iter_mut().enumerate() {
+            sl.amount = 1_000 + (j * 10 + i) as u64;
+        }
+        keys.push(pk);
+        txs.push(t);
+    }
+    let mut b = gen_block_distinct(rng, txs);
+    b.creator = cpk;
+    b.merkle_root = [0; 32];
+    let _ = b.generate();
+    b.sign(&csk);
+    let _ = b.generate();
+    (b, keys)
+}
+
+fn keylists_for(b: &Block, signer_keys: &[[u8; 33]]) -> Vec<(&'static str, Vec<[u8; 33]>)> {
+    let all: Vec<[u8; 33]> = b.transactions.iter().flat_map(|t| t.from.iter().chain(t.to.iter()).map(|s| s.public_key)).collect();
+    let mut v = vec![("all-keys", all), ("no-keys", vec![])];
+    if signer_keys.len() >= 3 {
+        // keep the first and the last transaction, omit what is in between
+        v.push(("first-and-last", vec![signer_keys[0], signer_keys[signer_keys.len() - 1]]));
+        v.push(("second-only", vec![signer_keys[1]]));
+    } else if let Some(k) = signer_keys.first() {
+        v.push(("first-only", vec![*k]));
+    }
+    v
+}
+
+// ---------------------------------------------------------------- real chain: blocks, verdicts, issuance file
+
+/// Blocks of a real chain that has wrapped its window (ATR rebroadcasts, golden
+/// tickets, fee transactions).  Node A receives the producer's blocks, node B the
+/// same blocks after serialize_for_net(Full) -> deserialize_from_net -> generate():
+/// both must reach the same verdict for every transaction and every block and the
+/// same ledger.
+fn chain_cases(ctx: &mut Ctx, rt: &tokio::runtime::Runtime, rng: &mut Rng, k: usize) {
+    use verif_harness::chainsim::{build_tree, long_family, params};
+    use verif_harness::world::Node;
+    let spec = long_family(rng, k);
+    let gp = spec.gp;
+    let tree = rt.block_on(build_tree(spec));
+    let pr = params(gp, false);
+    let mut a = Node::new(&pr, 7);
+    let mut b = Node::new(&pr, 8);
+    let mut fails_chain: Vec<String> = vec![];
+    let n = tree.blocks.len();
+    for (i, blk) in tree.blocks.iter().enumerate() {
+        // every block form on the wire keeps the identity of the block
+        let signer_keys: Vec<[u8; 33]> = blk.transactions.iter().filter(|t| !t.from.is_empty()).map(|t| t.from[0].public_key).collect();
+        let kls = keylists_for(blk, &signer_keys);
+        case_wire_identity(ctx, blk, &kls, "chain");
+        ctx.summary.count("chain_block_atr", if blk.avg_total_fees_atr != blk.total_fees_atr { "avg!=total" } else { "avg==total" });
+
+        // validity verdicts before and after the wire
+        let bytes = blk.serialize_for_net(BlockType::Full);
+        let wired = Block::deserialize_from_net(&bytes).ok().and_then(|mut d| d.generate().ok().map(|_| d));
+        let Some(wired) = wired else {
+            fails_chain.push(format!("block {} of the chain does not survive the wire", i));
+            continue;
+        };
+        for (j, (t0, t1)) in blk.transactions.iter().zip(wired.transactions.iter()).enumerate() {
+            let v0 = catch_unwind(AssertUnwindSafe(|| t0.validate(&a.blockchain.utxoset, &a.blockchain, true))).ok();
+            let v1 = catch_unwind(AssertUnwindSafe(|| t1.validate(&a.blockchain.utxoset, &a.blockchain, true))).ok();
+            ctx.summary.count("tx_verdict", &format!("{:?}->{:?}", v0, v1));
+            if v0 != v1 {
+                fails_chain.push(format!("Transaction::validate verdict of tx {} of block {} changes across the wire: {:?} -> {:?}", j, i, v0, v1));
+            }
+            if t0.hash_for_signature != t1.hash_for_signature || t0.total_fees != t1.total_fees || t0.total_in != t1.total_in || t0.total_out != t1.total_out {
+                fails_chain.push(format!("generated figures of tx {} of block {} differ after the wire", j, i));
+            }
+        }
+        let ra = rt.block_on(a.add_block(blk.clone()));
+        let rb = rt.block_on(b.add_block(wired));
+        ctx.summary.count("block_verdict", &format!("{:?}", ra));
+        if ra != rb {
+            fails_chain.push(format!("block {} ({} of {}): verdict {:?} for the producer's block, {:?} for the block received over the wire", blk.id, i, n, ra, rb));
+        }
+    }
+    let (sa, sb) = (a.snapshot(), b.snapshot());
+    if sa != sb {
+        fails_chain.push("the node fed with wire copies ends with a different chain / ledger".into());
+    }
+    // the issuance ("snapshot") file: written from the ledger, read back by Storage
+    {
+        let path = "mem/issuance/test.issuance";
+        rt.block_on(a.blockchain.write_issuance_file(0, path, &mut a.storage));
+        let slips = rt.block_on(a.storage.get_token_supply_slips_from_disk_path(path));
+        let mut written: Vec<([u8; 33], u64)> = a.blockchain.get_utxoset_data().into_iter().collect();
+        written.sort();
+        let mut small = 0u64;
+        let mut expect: Vec<([u8; 33], u64)> = vec![];
+        for (k, v) in written {
+            // the reader books every line below 25000 nolan on the project key
+            if v < 25000 {
+                small += v;
+            } else {
+                expect.push((k, v));
+            }
+        }
+        let mut got: Vec<([u8; 33], u64)> = slips.iter().filter(|s| s.amount >= 25000).map(|s| (s.public_key, s.amount)).collect();
+        got.sort();
+        let got_small: u64 = slips.iter().filter(|s| s.amount < 25000).map(|s| s.amount).sum();
+        ctx.summary.count("issuance_file_lines", &format!("{}", slips.len()));
+        if got != expect || got_small != small {
+            fails_chain.push(format!("issuance file does not read back as written: {} balances written, {} read", expect.len(), got.len()));
+        }
+        if slips.iter().any(|s| !s.is_utxoset_key_set || s.utxoset_key != s.get_utxoset_key()) {
+            fails_chain.push("issuance slips read back without their utxoset key".into());
+        }
+    }
+    ctx.push("chain-verdicts", "KNone".to_string(), &[k as u8 + 1], format!("long_family k={} gp={} blocks={}", k, gp, n), fails_chain);
+}
+
+// ---------------------------------------------------------------- balance snapshot (text format)
+
+fn case_snapshot(ctx: &mut Ctx, rng: &mut Rng, nslips: usize) {
+    use saito_core::core::defs::PrintForLog;
+    use saito_core::core::util::balance_snapshot::BalanceSnapshot;
+    let mut fails = vec![];
+    let mut snap = BalanceSnapshot {
+        latest_block_id: extreme_u64(rng),
+        latest_block_hash: rbytes::<32>(rng),
+        timestamp: extreme_u64(rng),
+        slips: vec![],
+    };
+    for i in 0..nslips {
+        let mut s = gen_slip(rng, 0);
+        // a real compressed public key (base58 of arbitrary 33 bytes also round-trips)
+        if i % 2 == 0 {
+            s.public_key = keypair(rng).0;
+        }
+        s.generate_utxoset_key();
+        snap.slips.push(s);
+    }
+    let name = snap.get_file_name();
+    let rows = snap.get_rows();
+    // documented format: <timestamp>-<latest_block_id>-<latest_block_hash>.snap
+    let expect_name = format!("{}-{}-{}.snap", snap.timestamp, snap.latest_block_id, hex::encode(snap.latest_block_hash));
+    if name != expect_name {
+        fails.push(format!("snapshot file name {} is not {}", name, expect_name));
+    }
+    // | Public Key | Block Id | Transaction Id | Slip Id | Amount |
+    if rows.len() != snap.slips.len() {
+        fails.push("one row per slip expected".into());
+    }
+    for (row, s) in rows.iter().zip(snap.slips.iter()) {
+        let cols: Vec<&str> = row.split(' ').collect();
+        let ok = cols.len() == 5
+            && <[u8; 33]>::from_base58(cols[0]).map(|k| k == s.public_key).unwrap_or(false)
+            && cols[1] == format!("{}", s.block_id)
+            && cols[2] == format!("{}", s.tx_ordinal)
+            && cols[3] == format!("{}", s.slip_index)
+            && cols[4] == format!("{}", s.amount);
+        if !ok {
+            fails.push(format!("row {:?} is not <key> <block id> <tx ordinal> <slip index> <amount> of its slip", row));
+            break;
+        }
+    }
+    match guarded("BalanceSnapshot::new", &mut fails, || BalanceSnapshot::new(name.clone(), rows.clone())) {
+        Some(Ok(back)) => {
+            if back.latest_block_id != snap.latest_block_id || back.latest_block_hash != snap.latest_block_hash || back.timestamp != snap.timestamp {
+                fails.push("snapshot header (file name) does not round-trip".into());
+            }
+            let same = back.slips.len() == snap.slips.len()
+                && back.slips.iter().zip(snap.slips.iter()).all(|(x, y)| {
+                    x.public_key == y.public_key && x.block_id == y.block_id && x.tx_ordinal == y.tx_ordinal && x.slip_index == y.slip_index && x.amount == y.amount
+                });
+            if !same {
+                fails.push("snapshot rows do not round-trip".into());
+            }
+            if back.get_rows() != rows || back.get_file_name() != name {
+                fails.push("re-encoding of the snapshot differs".into());
+            }
+            if back.slips.iter().any(|x| !x.is_utxoset_key_set || x.utxoset_key != x.get_utxoset_key()) {
+                fails.push("snapshot slips come back without their utxoset key".into());
+            }
+        }
+        Some(Err(e)) => fails.push(format!("BalanceSnapshot::new rejected its own output: {}", e)),
+        None => {}
+    }
+    // the whole-file form (Display / TryFrom<String>)
+    let text = format!("{}", snap);
+    match guarded("BalanceSnapshot::try_from", &mut fails, || BalanceSnapshot::try_from(text.clone())) {
+        Some(Ok(back)) => {
+            if back.get_rows() != rows || back.get_file_name() != name {
+                fails.push("snapshot text file does not round-trip".into());
+            }
+        }
+        Some(Err(e)) => fails.push(format!("snapshot text file rejected: {}", e)),
+        None => {}
+    }
+    let bytes = text.as_bytes().to_vec();
+    let rows_g: Vec<String> = snap
+        .slips
+        .iter()
+        .map(|x| format!("(mkSnapRow {} {} {} {} {})", g_bytes(x.public_key.to_base58().as_bytes()), x.block_id, x.tx_ordinal, x.slip_index, x.amount))
+        .collect();
+    let kase = format!(
+        "KSnap {} {} {} {} {} {}",
+        snap.timestamp,
+        snap.latest_block_id,
+        g_bytes(&snap.latest_block_hash),
+        gal::list(&rows_g),
+        g_bytes(name.as_bytes()),
+        gal::list(&rows.iter().map(|r| g_bytes(r.as_bytes())).collect::<Vec<_>>())
+    );
+    ctx.push("balance-snapshot", kase, &bytes, format!("slips={}", nslips), fails);
+}
+
+const HEADER: &str = "From Saito Require Import Base Bytes Codec TextCodec.
 From Coq Require Import String.
 Inductive kase :=
-| KSlip (v : slip) (bs : list N)
+| KSlip (v : slip) (bs key sigbs : list N)
 | KHop (v : hop) (bs : list N)
-| KTx (v : tx) (bs : list N) (size : N)
+| KTx (v : tx) (bs : list N) (size : N) (sigbs : list N)
 | KTxRaw (v : tx) (bs : list N)
 | KTxRej (v : tx) (bs : list N)
-| KBlock (bt : N) (v : block) (bs : list N) (dty dntx : N)
+| KBlock (bt : N) (v : block) (bs : list N) (dty dntx : N) (sigbs : list N)
+| KLite (orig : block) (txs : list tx) (merkle : list N) (bs : list N)
 | KMsg (v : message) (bs : list N)
 | KChal (v : list N) (bs : list N)
 | KResp (v : hs_response) (bs : list N)
@@ -669,21 +1082,39 @@ Inductive kase :=
 | KSvc (v : list service) (bs : list N)
 | KVer (v : version) (bs : list N)
 | KGt (v : golden_ticket) (bs : list N)
-| KWallet (v : wallet_keys) (bs : list N).
+| KWallet (v : wallet_keys) (bs : list N)
+| KSnap (ts id : N) (hash : list N) (rows : list snap_row) (name : list N) (texts : list (list N))
+| KFileName (ts : N) (hash : list N) (name : list N)
+| KNone.
 Definition rt {A} (enc : A -> list N) (dec : list N -> res A) (eqb : A -> A -> bool) (wf : A -> bool)
   (v : A) (bs : list N) : bool :=
   beq (enc v) bs && eqb_res eqb (dec bs) (Ok v) && wf v.
 Definition check (c : kase) : bool :=
   match c with
-  | KSlip v h => rt encode_slip decode_slip eqb_slip wf_slip v h
+  | KSlip v h key sg =>
+      rt encode_slip decode_slip eqb_slip wf_slip v h
+      && beq (encode_utxokey v) key && eqb_res eqb_slip (decode_utxokey key) (Ok v)
+      && beq (sig_bytes_slip v) sg
   | KHop v h => rt encode_hop decode_hop eqb_hop wf_hop v h
-  | KTx v h sz => rt encode_tx decode_tx eqb_tx wf_tx v h && (size_tx v =? sz) && (Nlen h =? sz)
+  | KTx v h sz sg =>
+      rt encode_tx decode_tx eqb_tx wf_tx v h && (size_tx v =? sz) && (Nlen h =? sz)
+      && beq (sig_bytes_tx v) sg
   | KTxRaw v h => beq (encode_tx v) h
   | KTxRej v h => beq (encode_tx v) h && (class_of (decode_tx h) =? 1) && negb (wf_tx v)
-  | KBlock bt v h dty dntx =>
+  | KLite orig txs mr h =>
+      (* the lite block on the wire is the full block's header (merkle root over the
+         placeholders) followed by the lite transactions; its signed header bytes are
+         the original's whenever the merkle roots agree *)
+      let l := lite_block_of orig txs mr in
+      beq (encode_block BT_FULL l) h
+      && eqb_res eqb_block (decode_block h) (Ok (block_after_wire BT_FULL l))
+      && eqb_lN (block_nums l) (block_nums orig)
+      && (negb (beq mr (b_merkle orig)) || beq (sig_bytes_block l) (sig_bytes_block orig))
+  | KBlock bt v h dty dntx sg =>
       let bs := h in let w := block_after_wire bt v in
       beq (encode_block bt v) bs && eqb_res eqb_block (decode_block bs) (Ok w) && wf_block v
       && (b_type w =? dty) && (Nlen (b_txs w) =? dntx) && (size_block bt v =? Nlen bs)
+      && beq (sig_bytes_block v) sg
   | KMsg v h =>
       let bs := h in
       beq (encode_message v) bs && eqb_res eqb_message (decode_message bs) (Ok (message_after_wire v)) && wf_message v
@@ -696,6 +1127,20 @@ Definition check (c : kase) : bool :=
   | KVer v h => rt encode_version decode_version eqb_version wf_version v h
   | KGt v h => rt encode_gt decode_gt eqb_gt wf_gt v h
   | KWallet v h => rt encode_wallet decode_wallet eqb_wallet wf_wallet v h
+  | KSnap ts id hash rows name texts =>
+      beq (print_snap_name ts id hash) name
+      && match parse_snap_name name with
+         | Some (a, b, h) => (a =? ts) && (b =? id) && beq h hash
+         | None => false
+         end
+      && eqb_llN (map print_row rows) texts
+      && forallb wf_snap_row rows
+      && forallb (fun p => match parse_row (snd p) with
+                           | Some r => eqb_snap_row r (fst p)
+                           | None => false
+                           end) (combine rows texts)
+  | KFileName ts hash name => beq (print_block_file_name ts hash) name
+  | KNone => true      (* direct oracle only (chain verdicts, issuance file) *)
   end.";
 
 fn main() {
@@ -822,6 +1267,21 @@ fn main() {
         b.sign(&csk);
         case_block(&mut ctx, &rt, &b, BlockType::Full, Some(cpk), "signed");
         case_block(&mut ctx, &rt, &b, BlockType::Header, Some(cpk), "signed");
+    }
+    // ---- identity of every block form on the wire (Full, Header, Pruned, lite): hand-built
+    // headers with 27 distinct non-zero figures, and real blocks of a chain past its window
+    for k in 0..(3 * mul) {
+        let (b, keys) = built_block(&mut rng, [3usize, 0, 5, 1, 4, 2][k % 6]);
+        let kls = keylists_for(&b, &keys);
+        case_wire_identity(&mut ctx, &b, &kls, "built");
+    }
+    for k in 0..(if thorough { 3 } else { 1 }) {
+        // family members 13.. build the whole main chain (2gp+2.. blocks, ATR rebroadcasts) plus a fork
+        chain_cases(&mut ctx, &rt, &mut rng, 13 + k);
+    }
+    // ---- balance snapshot text format
+    for n in [0usize, 1, 2, 7] {
+        case_snapshot(&mut ctx, &mut rng, n);
     }
     // ---- small formats
     for _ in 0..(6 * mul) {
